@@ -2309,6 +2309,10 @@ class SequenceAndSetBase(base.ConstructedAsn1Type):
         if self._componentValues is noValue:
             return
 
+        # an empty value stays a value (a type without components
+        # starts out as a schema object)
+        myClone.clear()
+
         for idx, componentValue in enumerate(self._componentValues):
             if componentValue is not noValue:
                 if isinstance(componentValue, base.ConstructedAsn1Type):
